@@ -2,8 +2,8 @@
 
 Exhaustive part: all 32 presence combinations of the five parameter kinds (one parameter per
 present kind, pairwise-distinguishable annotations int/float/Decimal/Fraction/str), with and
-without defaults, x four callable flavours (function, bound method, hashable callable instance,
-class through wrap) x every candidate call (0..4 positional numerals x every subset of the
+without defaults, x five callable flavours (function, bound method, hashable callable instance,
+class through wrap, function behind a functools.wraps decorator) x every candidate call (0..4 positional numerals x every subset of the
 keyword names {po, pk, ko, x1, x2}); `inspect.Signature.bind` decides which candidates Python
 accepts. Random part: Hypothesis signatures with up to 5 parameters, several per kind,
 unannotated parameters and defaults.
@@ -25,7 +25,7 @@ from harness.core import st
 from harness.oracles import snapshot
 
 ID = "C10"
-RULE = ("exhaustive kind-presence table x defaults x 4 callable flavours x all candidate calls, plus random "
+RULE = ("exhaustive kind-presence table x defaults x 5 callable flavours x all candidate calls, plus random "
         "multi-parameter signatures; non-trivial = an accepted call that passes a positional-or-keyword "
         "parameter by keyword, uses extra *args/**kwargs, or omits a default; distinct by "
         "(signature text, flavour, api, args, kwargs)")
@@ -33,10 +33,10 @@ ASSUMPTIONS = ["arguments are numerals every annotation in the pool converts, so
                "what a callable 'receives' is observed as its bound local parameters"]
 TECHNIQUE = "exhaustive enumeration of the 32-row parameter-kind table and call shapes + Hypothesis signatures; differential oracle against inspect.Signature.bind composed with per-parameter unmarshal"
 LEVEL_TEXT = ("Complete enumeration of the kind-presence table (the dispatch matrix's whole domain) with every call "
-              "shape up to 4 positionals and 5 keyword names, for bind and wrap over four callable flavours, plus "
+              "shape up to 4 positionals and 5 keyword names, for bind and wrap over five callable flavours, plus "
               "random signatures with several parameters per kind. Exhaustive for the table, exploration beyond it.")
 LEVEL_NOTE = "trusts inspect.Signature.bind as the model of which calls Python accepts"
-EXHAUSTIVE_NOTE = "32 kind rows x {no defaults, defaults} x {annotation objects, postponed annotation text in another module} x 4 flavours x {bind, wrap} x 160 candidate calls, all enumerated on every run"
+EXHAUSTIVE_NOTE = "32 kind rows x {no defaults, defaults} x {annotation objects, postponed annotation text in another module} x 5 flavours x {bind, wrap} x 160 candidate calls, all enumerated on every run"
 
 bind = tl.typelib.binding.bind
 wrap = tl.typelib.binding.wrap
@@ -87,6 +87,19 @@ def make_callables(params, tag, postponed=False):
     src = f'''
 def fn({text}):
     """doc of fn"""
+    return ("ret", {rec})
+
+import functools as _functools
+def _audited(f):
+    @_functools.wraps(f)
+    def inner(*a, **k):
+        r = f(*a, **k)
+        return (r[0], dict(r[1], __decorated__=True))
+    return inner
+
+@_audited
+def dfn({text}):
+    """doc of dfn"""
     return ("ret", {rec})
 
 class Meth:
@@ -188,6 +201,21 @@ def observe(flavour, api, ns):
         f = ns["fn"]
         target = bind(f) if api == "bind" else wrap(f)
         return (lambda a, k: _ret(tl.call(target, *a, **k))), inspect.signature(f, eval_str=True), f, target
+    if flavour == "decorated":
+        # a function behind a functools.wraps decorator: the callable to invoke is the decorated one
+        f = ns["dfn"]
+        target = bind(f) if api == "bind" else wrap(f)
+
+        def inv_d(a, k):
+            r = _ret(tl.call(target, *a, **k))
+            if r[0] == "ok" and isinstance(r[1], dict):
+                rec = dict(r[1])
+                if rec.pop("__decorated__", None) is not True:
+                    return ("ok", ("decorator-bypassed", repr(r[1])))
+                return ("ok", rec)
+            return r
+
+        return inv_d, inspect.signature(f, eval_str=True), f, target
     if flavour == "method":
         o = ns["Meth"]()
         f = o.m
@@ -228,7 +256,7 @@ def _ret(r):
     return r
 
 
-def check_calls(params, tag, calls, col, flavours=("function", "method", "instance", "class"), source="table", postponed=False):
+def check_calls(params, tag, calls, col, flavours=("function", "method", "instance", "class", "decorated"), source="table", postponed=False):
     ns, text = make_callables(params, tag, postponed)
     try:
         _check_calls(params, ns, text, calls, col, flavours, postponed)
@@ -243,7 +271,7 @@ def _check_calls(params, ns, text, calls, col, flavours, postponed):
         for api in ("bind", "wrap"):
             tl.clear_all()
             raw = {"function": ns["fn"], "method": ns["Meth"]().m, "instance": ns["Inst"](),
-                   "class": ns["Raw"]}[flavour]
+                   "class": ns["Raw"], "decorated": ns["fn"]}[flavour]
             try:
                 inv, sig, orig, target = observe(flavour, api, ns)
             except Exception as e:  # construction must work for any signature
@@ -370,7 +398,7 @@ def random_case(draw):
         a = tuple(draw(st.sampled_from(["7", "12", "300", 5])) for _ in range(na))
         knames = draw(st.lists(st.sampled_from([p[0] for p in params] + ["x1", "x2"]), unique=True, max_size=5))
         calls.append((a, {nm: draw(st.sampled_from(["8", "44", 9])) for nm in knames}))
-    flavour = draw(st.sampled_from(["function", "method", "instance", "class"]))
+    flavour = draw(st.sampled_from(["function", "method", "instance", "class", "decorated"]))
     return params, calls, flavour
 
 
